@@ -173,3 +173,11 @@ SUBS = [
     Sub("roundtrip", check_roundtrip, h5_case(), nontrivial=nontrivial, quick=600, thorough=4000),
     Sub("legacy", check_legacy, legacy_case(), quick=150, thorough=600),
 ]
+
+
+# objects with a history (reads that may fill caches, in-place writes): observables equal those of a fresh object
+from pbt import aged as _aged  # noqa: E402
+
+SUBS.append(_aged.sub("C10", quick=120))
+ASSUMPTIONS = list(ASSUMPTIONS) + ["aged sub-property: library results are a function of the public primary state "
+                                   "(corners, n, names, units, bc, subregions, array, validity, labels, mapping, unit)"]
